@@ -71,7 +71,7 @@ def replay(rec, ctx):
             bs, b0 = eqs.b_field(r, z), eq.b_field(r, z)
             ps_, p0 = eqs.poloidal_vector(r, z), eq.poloidal_vector(r, z)
             ok = core.close(gs, psin, rtol=1e-9, atol=1e-12) and bool(eqs.inside_lcfs(r, z)) == rec["inside"] \
-                and core.close([bs.x, bs.z], [b0.x * 10.0 ** pe, b0.z * 10.0 ** pe], rtol=1e-9, atol=1e-300) \
+                and core.close([bs.x, bs.z], [b0.x * 10.0 ** pe, b0.z * 10.0 ** pe], rtol=1e-9, atol=1e-12 * 10.0 ** pe * max(abs(b0.x), abs(b0.z), 1e-30)) \
                 and core.close([ps_.x, ps_.y, ps_.z], [p0.x, p0.y, p0.z], rtol=1e-9, atol=1e-12)
             if not ok:
                 bad(f"depends-on-the-unit-of-psi:1e{pe}", f"psi_n {gs!r} vs {psin!r}; B {bs} vs {b0} x 1e{pe}; poloidal vector {ps_} vs {p0}")
